@@ -816,13 +816,51 @@ def number(tree: ast.AST) -> None:
     not order the statements of a function any more): node._verif_seq"""
     k = [0]
 
-    def go(n):
+    shared = (ast.expr_context, ast.operator, ast.boolop, ast.unaryop, ast.cmpop)  # singletons shared by all trees
+
+    def go(n, fn):
+        if isinstance(n, shared):
+            return
         k[0] += 1
         n._verif_seq = k[0]
+        n._verif_func = fn
+        inner = n if isinstance(n, (ast.FunctionDef, ast.AsyncFunctionDef)) else fn
         for ch in ast.iter_child_nodes(n):
-            go(ch)
+            go(ch, inner)
 
-    go(tree)
+    go(tree, None)
+
+
+def single_definitions(fn: ast.AST) -> dict[str, ast.Assign]:
+    """locals of the function that are written by exactly one plain assignment `x = e` (not parameters, not loop or with
+    targets, not augmented, not global): the temporaries a matcher may look through.  Cached on the function node."""
+    cached = getattr(fn, '_verif_single_defs', None)
+    if cached is not None:
+        return cached
+    stores: dict[str, list] = {}
+    bad: set[str] = set()
+    args = getattr(fn, 'args', None)
+    if args is not None:
+        for a in args.posonlyargs + args.args + args.kwonlyargs + [x for x in (args.vararg, args.kwarg) if x]:
+            bad.add(a.arg)
+    for n in ast.walk(fn):
+        if isinstance(n, ast.Assign) and len(n.targets) == 1 and isinstance(n.targets[0], ast.Name):
+            stores.setdefault(n.targets[0].id, []).append(n)
+        elif isinstance(n, ast.Name) and isinstance(n.ctx, (ast.Store, ast.Del)):
+            stores.setdefault(n.id, []).append(None)
+        elif isinstance(n, (ast.Global, ast.Nonlocal)):
+            bad.update(n.names)
+    out = {}
+    for name, defs in stores.items():
+        # every Name store is seen twice when it is a plain assignment target (once through the Assign, once as a Name)
+        plain = [d for d in defs if d is not None]
+        if name not in bad and len(plain) == 1 and len(defs) == 2:
+            out[name] = plain[0]
+    try:
+        fn._verif_single_defs = out
+    except AttributeError:
+        pass
+    return out
 
 
 class _PatternFunc(ast.FunctionDef):
